@@ -134,6 +134,7 @@ uint64_t g_hard_cap = 0;
 uint8_t *g_arena = nullptr;
 constexpr size_t kArenaSize = 512ull << 20;
 size_t g_arena_top = 0;
+size_t g_arena_bot = 0;
 inline bool InArena(const void *p) {
   return g_arena && p >= g_arena && p < g_arena + kArenaSize;
 }
@@ -208,7 +209,7 @@ void *Allocate(size_t size, size_t align, bool nothrow) {
       throw std::bad_alloc();
     }
   }
-  if (g_cfg.perturb && g_cfg.descending) {
+  if (g_cfg.perturb && (g_cfg.descending || g_cfg.ascending)) {
     if (!g_arena) {
       void *m = mmap(nullptr, kArenaSize, PROT_READ | PROT_WRITE,
                      MAP_PRIVATE | MAP_ANONYMOUS | MAP_NORESERVE, -1, 0);
@@ -225,9 +226,16 @@ void *Allocate(size_t size, size_t align, bool nothrow) {
     const size_t al = align > 16 ? align : 16;
     const size_t gap = static_cast<size_t>(g_rng.Below(4)) * 16;
     const size_t need = ((size + al - 1) / al) * al + gap;
-    if (g_arena && g_arena_top > need + 4096) {
-      g_arena_top = (g_arena_top - need) & ~(al - 1);
-      uint8_t *user = g_arena + g_arena_top;
+    if (g_arena && g_arena_top > g_arena_bot + need + 2 * al + 8192) {
+      uint8_t *user;
+      if (g_cfg.descending) {
+        g_arena_top = (g_arena_top - need) & ~(al - 1);
+        user = g_arena + g_arena_top;
+      } else {
+        g_arena_bot = (g_arena_bot + gap + al - 1) & ~(al - 1);
+        user = g_arena + g_arena_bot;
+        g_arena_bot += ((size + al - 1) / al) * al;
+      }
 #ifdef SIM_ASAN
       // Stale poison of an earlier tenant of these addresses (e.g. the array
       // cookie of a new[] block) must not survive the arena reset.
@@ -384,11 +392,20 @@ void AllocEnd(bool free_leftovers) {
 
 void AllocSetHardCap(uint64_t bytes) { g_hard_cap = bytes; }
 
+bool AllocArenaEverywhere() {
+#ifdef SIM_ASAN
+  return false;
+#else
+  return true;
+#endif
+}
+
 void AllocArenaReset() {
   if (!g_arena) return;
   // Give the pages back (keeps the mapping): the next plan starts from zeros.
   madvise(g_arena, kArenaSize, MADV_DONTNEED);
   g_arena_top = kArenaSize;
+  g_arena_bot = 0;
   // Blocks that were never freed (objects abandoned on purpose) must not
   // shadow the blocks that will be placed at the same addresses.
   for (size_t i = 0; i < g_tab.cap; ++i) {
